@@ -18,6 +18,8 @@
 //! server.
 mod atomic_base_time;
 pub mod nfs_voucher;
+#[cfg(woodpile_verif)]
+pub mod verif_seams;
 
 use std::io::Result;
 
@@ -105,6 +107,8 @@ impl VouchedTime {
         base_time_provider: impl FnOnce(time::OffsetDateTime) -> Result<(u64, raffle::Voucher)>,
     ) -> Result<VouchedTime> {
         let now = time::OffsetDateTime::now_utc();
+        #[cfg(woodpile_verif)]
+        let now = crate::verif_seams::now_utc(now);
         let (base_time_ms, voucher) = base_time_provider(now)?;
         VouchedTime::new(
             time::PrimitiveDateTime::new(now.date(), now.time()),
